@@ -17,8 +17,10 @@ pub enum Rej { None, NoManifest, BadManifest, StaleReject, CrlMissing, StoredSta
 const REJS: [Rej; 6] = [Rej::None, Rej::NoManifest, Rej::BadManifest, Rej::StaleReject, Rej::CrlMissing, Rej::StoredStale];
 
 #[derive(Clone, Copy, Debug, Eq, PartialEq)]
-pub enum Res { V4Only, V4AndV6, WholeV4, TwoBlocks }
-const RESS: [Res; 4] = [Res::V4Only, Res::V4AndV6, Res::WholeV4, Res::TwoBlocks];
+pub enum Res { V4Only, V4AndV6, WholeV4, TwoBlocks,
+    /// all of one family together with a specific block of the other
+    WholeV4SomeV6, SomeV4WholeV6, WholeBoth }
+const RESS: [Res; 7] = [Res::V4Only, Res::V4AndV6, Res::WholeV4, Res::TwoBlocks, Res::WholeV4SomeV6, Res::SomeV4WholeV6, Res::WholeBoth];
 
 const POLICIES: [FilterPolicy; 3] = [FilterPolicy::Reject, FilterPolicy::Warn, FilterPolicy::Accept];
 
@@ -45,13 +47,13 @@ fn overlaps(res: Res, addr: &str, len: u8) -> bool {
     // reference: does addr/len intersect the rejected CA's blocks
     // (whole-family blocks excepted)?
     let blocks4: Vec<(u32, u8)> = match res {
-        Res::V4Only | Res::V4AndV6 => vec![(u32::from(Ipv4Addr::new(10, 0, 0, 0)), 16)],
-        Res::WholeV4 => vec![],   // 0/0 is not counted
+        Res::V4Only | Res::V4AndV6 | Res::SomeV4WholeV6 => vec![(u32::from(Ipv4Addr::new(10, 0, 0, 0)), 16)],
+        Res::WholeV4 | Res::WholeV4SomeV6 | Res::WholeBoth => vec![],   // 0/0 is not counted
         Res::TwoBlocks => vec![(u32::from(Ipv4Addr::new(10, 0, 0, 0)), 16), (u32::from(Ipv4Addr::new(172, 16, 0, 0)), 12)],
     };
     let blocks6: Vec<(u128, u8)> = match res {
-        Res::V4AndV6 => vec![(u128::from("2001:db8::".parse::<Ipv6Addr>().unwrap()), 32)],
-        _ => vec![]
+        Res::V4AndV6 | Res::WholeV4SomeV6 => vec![(u128::from("2001:db8::".parse::<Ipv6Addr>().unwrap()), 32)],
+        _ => vec![]   // ::/0 is not counted
     };
     if let Ok(a) = addr.parse::<Ipv4Addr>() {
         let a = u32::from(a);
@@ -83,6 +85,18 @@ fn tree(c: &CaseSpec) -> TreeSpec {
             car.v6 = vec![("2001:db8::".parse().unwrap(), 32)];
         }
         Res::WholeV4 => car.v4 = vec![(Ipv4Addr::new(0, 0, 0, 0), 0)],
+        Res::WholeV4SomeV6 => {
+            car.v4 = vec![(Ipv4Addr::new(0, 0, 0, 0), 0)];
+            car.v6 = vec![("2001:db8::".parse().unwrap(), 32)];
+        }
+        Res::SomeV4WholeV6 => {
+            car.v4 = vec![(Ipv4Addr::new(10, 0, 0, 0), 16)];
+            car.v6 = vec![("::".parse().unwrap(), 0)];
+        }
+        Res::WholeBoth => {
+            car.v4 = vec![(Ipv4Addr::new(0, 0, 0, 0), 0)];
+            car.v6 = vec![("::".parse().unwrap(), 0)];
+        }
         Res::TwoBlocks => car.v4 = vec![(Ipv4Addr::new(10, 0, 0, 0), 16), (Ipv4Addr::new(172, 16, 0, 0), 12)],
     }
     car.asns = vec![(64500, 64510)];
@@ -179,7 +193,8 @@ pub fn run(ctx: &Ctx) -> Report {
     let mut rep = Report::new("exploration");
     let cases = cases();
     rep.rule = "two TALs; under the first a CA holding R in {10.0.0.0/16; \
-        10.0.0.0/16 + 2001:db8::/32; 0.0.0.0/0; 10.0.0.0/16 + 172.16.0.0/12} \
+        10.0.0.0/16 + 2001:db8::/32; 0.0.0.0/0; 10.0.0.0/16 + 172.16.0.0/12; \
+        0.0.0.0/0 + 2001:db8::/32; 10.0.0.0/16 + ::/0; 0.0.0.0/0 + ::/0} \
         whose publication point is {fine, without manifest, with a bad \
         manifest, stale under reject, without CRL, \
         stored earlier (under stale=accept) and rejected from the store}, with and without a \
